@@ -31,18 +31,18 @@ from simkit.rng import seed_globals  # noqa: E402
 from simkit.world import InvalidScenario, Monitor, Violation, repo_exception_sig, result, run_sim  # noqa: E402
 
 PROPERTY = "C08"
-RUNS = {"quick": 10_000, "thorough": 600_000}
-WALL = {"quick": 50, "thorough": 1500}
+RUNS = {"quick": 7_000, "thorough": 600_000}
+WALL = {"quick": 55, "thorough": 1500}
 BATCH = {"quick": 125, "thorough": 1000}
 SELFTEST_RUNS = 24
 RULE = (
     "each case is a generated pipeline of 1-2 stages (Server with Fixed/Dynamic/Weighted concurrency, explicit "
     "Queue+QueueDriver+custom worker, ShiftedServer, RenegingQueuedResource, PooledCycleResource, BatchProcessor, "
     "ConveyorBelt, GateController; queue policies FIFO/LIFO/Priority/Deadline/Fair/WeightedFair/AdaptiveLIFO/CoDel/"
-    "RED/Balking with capacities) fed with 2-40 tagged requests through ConditionalRouter relay chains of 0-3 hops, "
+    "RED/Balking with capacities) fed with 2-60 tagged requests through ConditionalRouter relay chains of 0-3 hops, "
     "arrival instants drawn from a few ticks (bursts, completion/shift/gate instants) — or a direct push/pop/peek "
-    "script on one policy inside the engine; classes serial|multi x aligned|offgrid are avoidance classes for the "
-    "recorded findings; non-trivial = at least 3 requests offered and contention occurred (something waited, was "
+    "script on one policy inside the engine; main classes are multi (limits > 1) and aligned (coinciding instants), "
+    "serial (every limit 1) and offgrid (no coinciding unrelated events) are minor classes; non-trivial = at least 3 requests offered and contention occurred (something waited, was "
     "rejected, or was held) / for policy scripts: >=3 pushes, >=2 pops, depth >=2 reached; distinct = distinct "
     "engine delivery digests"
 )
@@ -87,7 +87,8 @@ ASSUMPTIONS = [
 EXPECTED_PROBES = [
     "fault.burst_same_instant", "fault.mixed_depth_burst", "fault.arrival_at_completion_instant",
     "fault.arrival_at_transition_instant", "fault.capacity_raised_under_backlog",
-    "probe.queue_full_reject", "probe.server_reject_overpoll", "probe.server_reject_heavy_head",
+    "probe.queue_full_reject", "probe.server_reject_heavy_head", "probe.empty_poll_answer",
+    "probe.burst_pulled_in_within_instant", "probe.capacity_raise_pulled_backlog", "probe.notify_and_completion_coincide",
     "probe.deadline_expired_drop", "probe.codel_drop", "probe.reneged", "probe.shift_zero_capacity",
     "probe.shift_capacity_raised", "probe.dynamic_limit_raised", "probe.pooled_handover", "probe.pooled_arrival_during_handover",
     "probe.batch_timeout_flush", "probe.gate_flush", "probe.gate_held", "probe.held_at_end_by_contract",
@@ -221,16 +222,19 @@ def _interesting_ticks(stages):
 
 
 def gen_pipeline(rng, tier, seed):
-    serial = rng.random() < 0.5
-    offgrid = rng.random() < 0.45
-    avoid = serial and offgrid
+    # main classes: limits > 1, coinciding instants, capacity changes.  `serial` (every limit 1) and `offgrid`
+    # (no two unrelated events share an instant) were avoidance classes while the polling defects were recorded;
+    # they stay as minor classes because they are configurations in their own right.
+    serial = rng.random() < 0.15
+    offgrid = rng.random() < 0.15
+    avoid = False
     kinds = ["server"] * 6 + ["driver"] * 3 + ["shifted"] * 3 + ["reneging"] * 2 + ["pooled"] * 2 + ["batch"] * 2 + \
             ["conveyor"] + ["gate"] * 2
     k0 = rng.choice(kinds)
     stages = [gen_stage(rng, k0, serial, avoid)]
     if rng.random() < 0.3:
         stages.append(gen_stage(rng, rng.choice(kinds), serial, avoid, idx=1))
-    n = rng.randint(2, 40 if tier == "quick" else 300) if rng.random() < 0.85 else rng.randint(2, 6)
+    n = rng.randint(2, 60 if tier == "quick" else 300) if rng.random() < 0.85 else rng.randint(2, 6)
     span = rng.randint(1, 30)
     cand = sorted({rng.randint(0, span) for _ in range(rng.randint(1, 6))})
     hot = [t for t in _interesting_ticks(stages) if t <= span + 20]
@@ -249,7 +253,7 @@ def gen_pipeline(rng, tier, seed):
     ctl = []
     for si, st in enumerate(stages):
         if st["kind"] == "server" and st["conc"]["model"] == "dynamic" and not serial:
-            for _ in range(rng.randint(0, 3)):
+            for _ in range(rng.randint(0, 5)):
                 ctl.append({"tick": rng.choice(cand) + rng.choice([0, 0, 1, 2]), "stage": si,
                             "limit": rng.randint(0, st["conc"]["max"] + 1)})
     return {"seed": seed, "kind": "pipeline", "serial": serial, "offgrid": offgrid, "stages": stages,
